@@ -1,7 +1,7 @@
 //! C03 - extensions and edges denote exactly the real adjacencies, symmetrically; pruning is
 //! exact; walks along reported edges spell what they walk.
 use super::note;
-use crate::case::{GCase, Part};
+use vglue::case::{GCase, Part};
 use crate::pipe::*;
 use bit_set::BitSet;
 use debruijn::compression::*;
